@@ -1,0 +1,193 @@
+//go:build verif
+
+// Contracts for the deductive verification in /verif (govc). This file contains
+// comments only; it is compiled only with -tags verif and declares nothing.
+
+package verifier
+
+// ---------------------------------------------------------------- verifier.go (property C12)
+
+// MatchesDomain: documented "true if NameError == nil and Name != """.
+//@ func (*VerificationResult).MatchesDomain
+//@   requires res != nil
+//@   ensures result <==> res.NameError == nil && res.Name != ""
+//@   terminates
+
+// HasTrustedChain: documented "true if len(current) > 0".
+//@ func (*VerificationResult).HasTrustedChain
+//@   requires res != nil
+//@   ensures result <==> len(res.CurrentChains) > 0
+//@   terminates
+
+// HadTrustedChain: documented "len(Current) > 0 || len(ValidAtExpired) > 0".
+//@ func (*VerificationResult).HadTrustedChain
+//@   requires res != nil
+//@   ensures result <==> len(res.CurrentChains) > 0 || len(res.ValidAtExpirationChains) > 0
+//@   terminates
+
+// parentsFromChains (C12: "parents equal to the distinct second certificates of the relevant
+// chains"). chains[i][1] is read only for chains of length >= 2 (no panic).
+//  [member]   every parent is chains[i][1] of some chain with at least two certificates;
+//  [distinct] parents with the same SHA-256 fingerprint (same key string) are the same
+//             certificate object: one representative per fingerprint.
+// Not stated (govc's map range picks "some key" per iteration and has no visited set): that no
+// representative is emitted twice, that every fingerprint is represented, and termination.
+//@ pred second(chains, i) = chains[i][1]
+//@ pred hasSecond(chains, i) = len(chains[i]) >= 2
+//@ pred secondsOK(chains) = forall(i, 0, len(chains), allocated(chains[i]) && (hasSecond(chains, i) ==> second(chains, i) != nil))
+//@ pred chainsAlloc(chains) = forall(i, 0, len(chains), allocated(chains[i]), chains[i])
+//@ pred ckey(c) = spec.keystr(seq(c.FingerprintSHA256), len(c.FingerprintSHA256))
+// the map sends every key to the index of a chain whose second certificate has that fingerprint
+//@ pred repOK(chains, m, n) = forallv(k, string, has(m, k) ==> 0 <= m[k] && m[k] < n && hasSecond(chains, m[k]) && ckey(second(chains, m[k])) == k)
+// p is the second certificate of some chain (entry state; the function writes nothing that existed before)
+//@ pred isSecond(chains, p) = !forall(i, 0, len(chains), !(old(len(chains[i])) >= 2 && p == old(chains[i][1])), chains[i])
+//@ pred repOf(chains, m, p) = has(m, ckey(p)) && second(chains, m[ckey(p)]) == p
+//@ func parentsFromChains
+//@   requires secondsOK(chains) && chainsAlloc(chains)
+//@   loop 1 invariant 0 <= it && it <= len(chains) && parentSet != nil
+//@   loop 1 decreases len(chains) - it
+//@   loop 1 invariant repOK(chains, parentSet, it)
+//@   loop 2 invariant parents == nil || fresh(parents)
+//@   loop 2 invariant forall(j, 0, len(parents), repOf(chains, parentSet, parents[j]))
+//@   loop 2 invariant forall(j, 0, len(parents), isSecond(chains, parents[j]))
+//@   ensures [member] forall(j, 0, len(parents), isSecond(chains, parents[j]))
+//@   ensures [distinct] forall(a, 0, len(parents), forall(b, 0, len(parents), ckey(parents[a]) == ckey(parents[b]) ==> parents[a] == parents[b]))
+//@   ensures parents == nil || fresh(parents)
+
+// clean: only the VerifyTime field of the options is written. (time.Time is opaque in
+// /verif/extern/time.contracts, so "unchanged unless zero" cannot be stated.)
+//@ func (*VerificationOptions).clean
+//@   requires opt != nil
+//@   modifies opt.VerifyTime
+//@   terminates
+
+// ---------------------------------------------------------------- graph.go: GraphEdgeSet (property C10)
+//
+// Abstract view of an edge set: the finite map es.edges from the key string holding the
+// certificate's SHA-256 fingerprint bytes (spec.keystr, the value of string(fp)) to the edge.
+
+//@ pred fpk(fp) = spec.keystr(seq(fp), len(fp))
+//@ pred certKey(c) = fpk(c.FingerprintSHA256)
+//@ pred inSet(es, k) = has(es.edges, k)
+//@ pred othersKept(es, k) = forallv(j, string, j != k ==> (has(es.edges, j) <==> old(has(es.edges, j))) && es.edges[j] == old(es.edges[j]))
+
+//@ func NewGraphEdgeSet
+//@   ensures es != nil && fresh(es) && es.edges != nil && len(es.edges) == 0
+//@   ensures forallv(k, string, !has(es.edges, k))
+//@   terminates
+
+//@ func (*GraphEdgeSet).ContainsCertificate
+//@   requires es != nil && c != nil
+//@   ensures result <==> inSet(es, certKey(c))
+//@   terminates
+
+//@ func (*GraphEdgeSet).ContainsEdge
+//@   requires es != nil && edge != nil && edge.Certificate != nil
+//@   ensures result <==> inSet(es, certKey(edge.Certificate))
+//@   terminates
+
+//@ func (*GraphEdgeSet).Size
+//@   requires es != nil
+//@   ensures result == len(es.edges)
+//@   terminates
+
+//@ func (*GraphEdgeSet).FindEdge
+//@   requires es != nil
+//@   ensures inSet(es, fpk(fp)) ==> result == es.edges[fpk(fp)]
+//@   ensures !inSet(es, fpk(fp)) ==> result == nil
+//@   terminates
+
+//@ func (*GraphEdgeSet).removeEdge
+//@   requires es != nil
+//@   ensures old(inSet(es, fpk(fp))) ==> result == old(es.edges[fpk(fp)]) && len(es.edges) == old(len(es.edges)) - 1
+//@   ensures !old(inSet(es, fpk(fp))) ==> result == nil && len(es.edges) == old(len(es.edges))
+//@   ensures !inSet(es, fpk(fp))
+//@   ensures othersKept(es, fpk(fp))
+//@   modifies under(es.edges)
+//@   terminates
+
+//@ func (*GraphEdgeSet).addOrPanic
+//@   requires es != nil && es.edges != nil && edge != nil && edge.Certificate != nil
+//@   panics_when inSet(es, certKey(edge.Certificate))
+//@   ensures inSet(es, certKey(edge.Certificate)) && es.edges[certKey(edge.Certificate)] == edge
+//@   ensures len(es.edges) == old(len(es.edges)) + 1
+//@   ensures othersKept(es, certKey(edge.Certificate))
+//@   modifies under(es.edges)
+//@   terminates
+
+// Edges: "returns all edges in the set as a slice". Stated with an auxiliary, otherwise
+// unconstrained relation ghost.edgeIn: for every relation that contains all edges filed in the
+// set (allFiled), every element of the result is in the relation - i.e. (take the relation
+// "is a value of the map") every element of the result is an edge of the set; an empty set
+// gives an empty result. That every edge of the set occurs, exactly once, depends on Go's map
+// iteration visiting each key once; govc models a map range as "some key of the domain per
+// iteration" (see /verif/notes/verifier.md), so completeness and termination are not stated.
+//@ pred allFiled(es) = forallv(k, string, has(es.edges, k) ==> ghost.edgeIn(es, es.edges[k]))
+//@ pred emptySet(es) = forallv(k, string, !has(es.edges, k))
+//@ func (*GraphEdgeSet).Edges
+//@   requires es != nil && allFiled(es)
+//@   loop 1 invariant out == nil || fresh(out)
+//@   loop 1 invariant forall(i, 0, len(out), ghost.edgeIn(es, out[i]))
+//@   loop 1 invariant emptySet(es) ==> len(out) == 0
+//@   ensures forall(i, 0, len(out), ghost.edgeIn(es, out[i]))
+//@   ensures out == nil || fresh(out)
+//@   ensures emptySet(es) ==> len(out) == 0
+
+// ---------------------------------------------------------------- graph.go: Graph accessors
+
+//@ func (*Graph).Nodes
+//@   requires g != nil
+//@   ensures g.nodes == nil ==> out == nil
+//@   ensures g.nodes != nil ==> nonnil(out) && fresh(out)
+//@   ensures len(out) == len(g.nodes) && forall(i, 0, len(g.nodes), out[i] == g.nodes[i])
+//@   alloc <= len(g.nodes)
+//@   terminates
+
+//@ func (*Graph).Edges
+//@   requires g != nil && g.edges != nil && allFiled(g.edges)
+//@   ensures forall(i, 0, len(result), ghost.edgeIn(g.edges, result[i]))
+//@   ensures result == nil || fresh(result)
+//@   ensures emptySet(g.edges) ==> len(result) == 0
+
+//@ func (*Graph).FindEdge
+//@   requires g != nil && g.edges != nil
+//@   ensures inSet(g.edges, fpk(fp)) ==> result == g.edges.edges[fpk(fp)]
+//@   ensures !inSet(g.edges, fpk(fp)) ==> result == nil
+//@   terminates
+
+//@ pred skKey(fp) = subjectAndKeyFingerprint(spec.keystr(seq(fp), len(fp)))
+//@ func (*Graph).FindNode
+//@   requires g != nil
+//@   ensures has(g.nodesBySubjectAndKey, skKey(fp)) ==> result == g.nodesBySubjectAndKey[skKey(fp)]
+//@   ensures !has(g.nodesBySubjectAndKey, skKey(fp)) ==> result == nil
+//@   terminates
+
+// IsRoot: "true if c is a root in the graph": c's fingerprint is filed in the graph's edge
+// set and that edge carries the root mark.
+//@ func (*Graph).IsRoot
+//@   requires g != nil && g.edges != nil && c != nil
+//@   requires forallv(k, string, has(g.edges.edges, k) ==> g.edges.edges[k] != nil)
+//@   ensures result <==> inSet(g.edges, certKey(c)) && g.edges.edges[certKey(c)].root
+//@   terminates
+
+// ---------------------------------------------------------------- walk.go (property C11)
+
+// canAddToChain(c, certType, currentChain): currentChain is the path below c (leaf first), so
+// len(currentChain)-1 intermediates follow c. RFC 5280 4.2.1.9: only a CA certificate may be
+// an intermediate, and pathLenConstraint bounds the number of intermediates that follow.
+// A path-length constraint is present (x509.Certificate.MaxPathLen documentation) when
+// BasicConstraintsValid and MaxPathLen > 0, or MaxPathLen == 0 with MaxPathLenZero; the
+// combination MaxPathLen == 0 && !MaxPathLenZero "should be treated equivalent to -1 (unset)".
+// The code treats that combination as a limit of zero; it arises only for hand-built
+// certificates (the parser sets MaxPathLenZero whenever it stores 0), so [complete] excludes it
+// (an observation in /verif/notes/verifier.md, not a defect clause).
+//@ pred pathLimited(c) = c.BasicConstraintsValid && (c.MaxPathLen > 0 || (c.MaxPathLen == 0 && c.MaxPathLenZero))
+//@ pred canAdd(c, certType, n) = (certType == x509.CertificateTypeIntermediate ==> c.BasicConstraintsValid && c.IsCA) && (pathLimited(c) ==> n - 1 <= c.MaxPathLen)
+//@ func canAddToChain
+//@   requires c != nil
+//@   ensures [sound] result == nil ==> canAdd(c, certType, len(currentChain))
+//@   ensures [complete] canAdd(c, certType, len(currentChain)) && !(c.MaxPathLen == 0 && !c.MaxPathLenZero) ==> result == nil
+//@   ensures [reason] result != nil ==> typeis(result, x509.CertificateInvalidError) && unboxed(result, x509.CertificateInvalidError).Cert == c
+//@   ensures [reason] result != nil && certType == x509.CertificateTypeIntermediate && !(c.BasicConstraintsValid && c.IsCA) ==> unboxed(result, x509.CertificateInvalidError).Reason == x509.NotAuthorizedToSign
+//@   ensures [reason] result != nil && !(certType == x509.CertificateTypeIntermediate && !(c.BasicConstraintsValid && c.IsCA)) ==> unboxed(result, x509.CertificateInvalidError).Reason == x509.TooManyIntermediates
+//@   terminates
